@@ -195,7 +195,7 @@ theorem current_confined (fail : Nat → Bool) (c : Cfg) (hw : c.w.Ok) (hld : c.
     let s := ts.foldl (fun s t => (memXpand current c.w fail t s).1) (memInit current fail c).st
     (∀ b ∈ s.blocks c.w, 0 ≤ b.1 ∧ 0 ≤ b.2 ∧ b.1 + b.2 ≤ s.size) ∧ (s.blocks c.w).Pairwise Disjoint := by
   have h0 : InvC c.w (memInit current fail c).st :=
-    (memInit_inv_of_d3 current rfl fail c hw hl hn hI hD hnz (memInit_no_spin current fail c ha hnz) h).toC
+    (memInit_inv_of_d3 current rfl rfl fail c hw hl hn hI hD hnz (memInit_no_spin current fail c ha hnz) h).toC
   have hall : ∀ (ts : List MemType) (s : St), InvC c.w s →
       InvC c.w (ts.foldl (fun s t => (memXpand current c.w fail t s).1) s) := by
     intro ts
